@@ -78,6 +78,14 @@ func (i *syntaxChildMultiIdentifier) retrieveMap(
 		}
 
 		if err := identifier.retrieve(root, srcMap, container); err != nil {
+			if wildcard, ok := identifier.(*syntaxChildWildcardIdentifier); ok {
+				if err.getSyntaxNode() == wildcard.syntaxBasicNode {
+					// The object has no member for `*`: that is this step's
+					// own "member did not exist", reported below under the
+					// text of the step as written, not under a bare `*`.
+					continue
+				}
+			}
 			if len(container.result) == 0 {
 				deepestTextLen, deepestError = i.addDeepestError(err, deepestTextLen, deepestError)
 			}
